@@ -266,7 +266,7 @@ CHECKS["C01"]["rule"] = (
     "time-bound-factor settings; each under a history solve [-> continued solve | clear + solve]* with the same oracle (for ST-RRT*: every consecutive "
     "pair passes the user's motion rule again, time within bounds, start at t = 0); (12%) LightningRetrieveRepair on a generated experience database "
     "(1..4 paths recorded 'in another environment'); (6%) XXL with a grid decomposition of the position. "
-    "Companion C01P (configuration coverage, 1600 / 24000 cases; the C01 harness built with -DVF_C01P): every case sets planner parameters (each "
+    "Companion C01P (configuration coverage, 1200 / 20000 cases; the C01 harness built with -DVF_C01P): planners drawn in proportion to what they let the caller configure (1 + 3 per declared switch + 1 per numeric parameter), every case sets planner parameters (each "
     "declared switch / numeric parameter with probability 1/2), a third of the normal single-goal problems have the goal walled in (valid but unreachable), "
     "59% of the budgets come from the top of the range: non-default configurations under long searches that end without an exact solution.")
 
@@ -493,7 +493,7 @@ CHECKS["C01P"] = dict(
     src="harness/C01_paths.cpp",
     cxxflags=["-DVF_C01P"],
     registered=False,
-    cases=dict(quick=1600, thorough=24000),
+    cases=dict(quick=1200, thorough=20000),
     rule="companion of C01", technique="", level_text="", level_note="",
 )
 CHECKS["C19P"] = dict(
